@@ -42,7 +42,7 @@ ALPHABET = [
   None, None, '', True, False, 0, 1, 2, 3, -3, 7, 99, 2.5, 8.153, -0.5, 0.0, 1e10, 1509556595, 2 ** 31, float(TS), TS + 37800,
   'abc', 'New York', '12', ' 7 ', '3.5', '1e3', '-2', 'true', 'YES', 'no', 'False', '0', '1', 'a,b', 'b',
   '2020-01-15', '2020-01-15 10:30:00', '2020-01-15T10:30:00Z', '2020-01-15T10:30:00+09:00', '15/01/2020', '2020-13-45',
-  '[1, 2]', '["a", "b"]', '[]', '[1', '[3]', '{"a": 1}', 'Record:5', 'null', 'nan', 'inf',
+  '[1, 2]', '["a", "b"]', '[]', '[1', '[3]', '{"a": 1}', 'Record:5', 'null', 'nan', 'inf', '[draft] notes', '[x', '[1, 2] and more',
   ['L'], ['L', 1, 2], ['L', 2], ['L', 'a', 'b'], ['L', 'b'], ['L', 1, 'x'], ['L', 99], ['L', None], ['L', ['L', 1]],
   ['d', TS], ['D', TS + 37800, 'UTC'], ['D', TS + 37800, 'Asia/Tokyo'], ['D', TS, 'America/New_York'],
   ['O', {'a': 1}], u'Chîcágö',
@@ -86,6 +86,18 @@ def independent(target, v):
     if isinstance(v, str):
       return True, v
     return (True, _TEXT[key]) if key in _TEXT else (False, None)
+  if base == 'ChoiceList' and isinstance(v, str) and v.strip():
+    # Text to choice list (usertypes docstring and upstream test_types): text that is a JSON list becomes the list of
+    # its items as strings (None when empty); any other text - including text that merely starts with '[' - stays as
+    # alt text, unchanged.
+    if v.startswith('['):
+      try:
+        parsed = json.loads(v)
+      except ValueError:
+        return True, v
+      if isinstance(parsed, list):
+        return True, ((['L'] + [str(i) for i in parsed]) or None) if parsed else None
+    return True, v
   table = {'Numeric': _NUM, 'Int': _INT, 'Bool': _BOOL, 'Date': _DATE}.get(base)
   if table is None:
     return False, None
